@@ -221,6 +221,20 @@ class ZipfRules:
                                    'normal exit dominated by the test' if t is False else 'a generator is produced without the max < min test (or although max < min)')
             if not n_thr:
                 self.sink.bad('C19.REJECT', '%s(min, max, alpha) rejects max < min' % sn, self.loc(c), 'no throwing path')
+            # a member function of a *live* generator that rejects its arguments by throwing leaves the generator as it was
+            # (a constructor that throws leaves no object behind; a Reset(min, max, alpha) that assigns first and validates afterwards
+            # leaves a generator that was "rejected" and changed all the same)
+            for f in self.fx.functions.values():
+                if f.get('record') != rec or f['kind'] in ('ctor', 'dtor') or self.eng.private_helper(f):
+                    continue
+                for p in self.paths(f):
+                    if p.end != 'throw':
+                        continue
+                    dirty = [e for e in p.events if (e['kind'] == 'assign' and self.rooted(e['path'], S('this'))) or
+                             (e['kind'] == 'call' and e.get('obj') is not None and not e.get('const_method') and self.rooted(e['obj'], S('this')))]
+                    self.sink.emit('C19.REJECT', 'ok' if not dirty else 'violated', '%s::%s rejects without changing the generator' % (sn, f['short']), self.loc(f, p.ret_line),
+                                   'nothing written before the throw' if not dirty else
+                                   'members are written (line %s) before the exception is thrown: the generator keeps answering, with parameters that were rejected' % dirty[0].get('line'))
         incs = ['dbgroup/random/zipf.hpp']
         w = run_witness(self.fx.flags, incs, asserts, compilers=('clang++', 'g++'))
         for tag, expr, _ in asserts:
@@ -328,6 +342,38 @@ class ZipfRules:
                 continue
             tab = table[0]['name']
             tobj = ('field', S('this'), tab)
+            # C06.BUILD: the table is built on an empty table.  A constructor starts with one; any other member that (re)builds it
+            # - a setter calling UpdateCDF, a Reset(...) - must empty it first, else the new CDF is appended behind the old one:
+            # positions beyond the range become reachable and the values no longer follow the parameters
+            if 'vector' in table[0]['type']['ct']:
+                members = [f for f in self.fx.functions.values() if f.get('record') == rec and f['kind'] not in ('dtor',)]
+                builders = {}      # key -> (function, line of the first append / call that appends without a reset before it)
+                changed = True
+                while changed:
+                    changed = False
+                    for f in members:
+                        if f['key'] in builders or f['kind'] == 'ctor':
+                            continue
+                        for p in self.paths(f):
+                            app = [e for e in p.events if e['kind'] == 'call' and
+                                   ((e.get('obj') == tobj and e.get('name') in ('emplace_back', 'push_back', 'insert', 'resize')) or e.get('callee') in builders)]
+                            if not app:
+                                continue
+                            reset = [e for e in p.events if e['kind'] == 'call' and e.get('obj') == tobj and e.get('name') in ('clear', 'operator=', 'assign', 'swap') and e['seq'] < app[0]['seq']]
+                            if not reset:
+                                builders[f['key']] = (f, app[0])
+                                changed = True
+                                break
+                n_pub = 0
+                for f, e0 in builders.values():
+                    if f.get('access') == 0:
+                        n_pub += 1
+                        self.sink.bad('C06.BUILD', '%s::%s rebuilds the table from an empty table' % (sn, f['short']), self.loc(f, e0.get('line')),
+                                      'a public member appends to the table (directly or through %s) without emptying it first: the new CDF lands behind the old one, positions beyond '
+                                      'max - min become reachable and GetCDF keeps answering from the old values' % (e0.get('name') or 'a helper'))
+                if not n_pub:
+                    self.sink.ok('C06.BUILD', '%s: the table is appended to only during construction (or after being emptied)' % sn, '%s:%s' % (r['file'], r['line']),
+                                 'appending helpers: %s' % sorted(f['short'] for f, _ in builders.values()))
             # Z.DEFAULT: what a default-constructed generator holds when its constructor returns: the members' values after
             # the (possibly delegated) member initialisers, default member initialisers included
             dc = [f for f in self.fx.functions.values() if f.get('record') == rec and f['kind'] == 'ctor' and len(f['params']) == 0]
@@ -367,7 +413,14 @@ class ZipfRules:
                       (e['kind'] == 'assign' and self.is_elem_of(e['path'], tobj, p))]
                 single = self.cond_le1(p, nbins)
                 if single is True:
+                    # (emptying the table first - clear(), fill(0.0) - changes nothing about what it holds in the end)
+                    cleared = bool(tw) and tw[0]['kind'] == 'call' and tw[0]['name'] in ('clear', 'fill')
+                    while tw and tw[0]['kind'] == 'call' and tw[0]['name'] in ('clear', 'fill'):
+                        tw = tw[1:]
                     good = len(tw) == 1 and tw[0]['kind'] == 'call' and tw[0]['name'] == 'operator=' and self.is_one_list(tw[0]['args'][0] if tw[0]['args'] else None)
+                    if not good and cleared and len(tw) == 1 and tw[0]['kind'] == 'call' and tw[0]['name'] in ('emplace_back', 'push_back') and tw[0]['args']:
+                        a0 = tw[0]['args'][0]
+                        good = isinstance(a0, tuple) and a0 and a0[0] == 'f' and a0[1] == 1.0
                     self.sink.emit('C06.DEFAULT', 'ok' if good else 'violated', '%s::UpdateCDF single bin: table = {1.0}' % sn, self.loc(upd, p.ret_line), '')
                     continue
                 if single is None:
@@ -763,16 +816,63 @@ class ZipfRules:
                                       'denom_ = H(n_) was evaluated with the previous value: GetCDF(n_ - 1) = H(n_) / denom_ is no longer exactly 1, the last bin can be overshot')
                 ok_order = list(ini).index('n_') < list(ini).index('denom_') and list(ini).index('pow_') < list(ini).index('denom_') if 'pow_' in ini and 'denom_' in ini and 'n_' in ini else False
                 self.sink.emit('C06.DENOM', 'ok' if ok_order else 'violated', '%s n_ and pow_ are initialised before denom_ uses them' % sn, self.loc(c), 'member order %s' % list(ini))
-        # writers of denom_ / n_ outside constructors
+        # members other than the constructors that change a parameter (a SetAlpha, a Reset ...): everything derived from the
+        # parameters is recomputed afterwards, in dependency order - n_ after min_ / max_, pow_ after alpha_, denom_ = H(n_) after
+        # n_ and pow_, and the table last.  (A complete exchange with another generator - swap - keeps both consistent.)
+        params = ('min_', 'max_', 'alpha_', 'n_', 'pow_', 'denom_')
+        allf = [x['name'] for x in r['fields']]
+        upd_key = self.one(rec, 'UpdateCDF')['key']
         for f in self.fx.functions.values():
-            if f.get('record') != rec or f['kind'] == 'ctor':
+            if f.get('record') != rec or f['kind'] in ('ctor', 'dtor') or self.eng.private_helper(f):
                 continue
             if f.get('copy_assign') or f.get('move_assign'):
                 continue      # a user-provided assignment replaces all members together: judged by the memberwise rule (C19.CONST)
             for p in self.paths(f):
+                if p.end == 'throw':
+                    continue
+                wr = {}
                 for e in p.events:
-                    if e['kind'] == 'assign' and e['path'][0] == 'field' and e['path'][1] == S('this') and e['path'][2] in ('denom_', 'n_', 'pow_', 'min_', 'max_'):
-                        self.sink.bad('C06.DENOM', '%s::%s rewrites %s' % (sn, f['short'], e['path'][2]), self.loc(f, e['line']), '')
+                    if e['kind'] == 'assign' and e['path'][0] == 'field' and e['path'][1] == S('this') and e['path'][2] in params:
+                        wr[e['path'][2]] = e
+                if not wr:
+                    continue
+                key = '%s::%s leaves the parameters and everything derived from them consistent' % (sn, f['short'])
+                gp = [q for q in f['params'] if q.get('isref') and q['type'].get('ct', '').replace('const ', '').strip().split('<')[0] == rec.split('<')[0]]
+                if len(gp) == 1 and len(f['params']) == 1:
+                    other = S('&' + gp[0]['name'])
+                    scal = [x for x in allf if x in params]
+                    if all(p.store.get(('field', S('this'), x)) == S(show(('field', other, x)), bits_of_val(p.store.get(('field', S('this'), x)))) or
+                           show(p.store.get(('field', S('this'), x))) == show(('field', other, x)) for x in scal) and \
+                       all(show(p.store.get(('field', other, x))) == 'this->' + x for x in scal):
+                        self.sink.ok('C06.DENOM', key, self.loc(f, p.ret_line), 'complete exchange with another generator')
+                        continue
+                seq = lambda n_: wr[n_]['seq'] if n_ in wr else -1
+                why = []
+                fin = lambda n_: p.store.get(('field', S('this'), n_), S('this->' + n_))
+                if ('min_' in wr or 'max_' in wr):
+                    if seq('n_') < max(seq('min_'), seq('max_')):
+                        why.append('n_ is not recomputed after min_ / max_ changed')
+                    else:
+                        v = self.unext(wr['n_']['value'])
+                        ok_n = isinstance(v, tuple) and v[0] == 'op' and v[1] == '+' and is_const(self.unext(v[3])) and self.unext(v[3])[1] == 1 and \
+                            isinstance(self.unext(v[2]), tuple) and self.unext(v[2])[0] == 'op' and self.unext(v[2])[1] == '-' and \
+                            show(self.unext(self.unext(v[2])[2])) == show(self.unext(fin('max_'))) and show(self.unext(self.unext(v[2])[3])) == show(self.unext(fin('min_')))
+                        if not ok_n:
+                            why.append('n_ = %s is not max_ - min_ + 1 of the new bounds' % norm(v)[:60])
+                if 'alpha_' in wr and seq('pow_') < seq('alpha_'):
+                    why.append('pow_ is not recomputed after alpha_ changed')
+                if any(x in wr for x in ('alpha_', 'pow_', 'n_', 'min_', 'max_')):
+                    last = max(seq(x) for x in ('alpha_', 'pow_', 'n_'))
+                    dv = wr['denom_']['value'] if 'denom_' in wr else None
+                    if seq('denom_') < last:
+                        why.append('denom_ = H(n_) is not recomputed after n_ / pow_ changed: GetCDF(n_ - 1) is no longer exactly 1, and the values differ from a generator constructed with the same parameters')
+                    elif not (isinstance(dv, tuple) and dv[0] == 'app' and dv[1] == 'GetHarmonicNum' and any(show(self.unext(a)) == show(self.unext(fin('n_'))) for a in dv[2])):
+                        why.append('denom_ = %s is not GetHarmonicNum(n_)' % norm(dv)[:60])
+                ups = [e for e in p.events if (e['kind'] in ('call', 'inline_begin')) and e.get('callee') == upd_key]
+                if not ups or ups[-1]['seq'] < max(e['seq'] for e in wr.values()):
+                    why.append('the table is not rebuilt (UpdateCDF) after the last parameter changed')
+                self.sink.emit('C06.DENOM', 'ok' if not why else 'violated', key, self.loc(f, p.ret_line),
+                               'recomputed in dependency order' if not why else '; '.join(why))
 
 
 def analyse(fx, eng):
